@@ -6,12 +6,15 @@ that version, `c<0|1>` closer `)` / `]`.
 Answer:  model=<tree|ERR:syntax|ERR:fuel|ERR:unmodelled> spec=<tree|ERR> trig=<finding ids,…|-> rel=<0|1>
   model : the Pratt model with the generated table;  spec : the EBNF reference parser with the W3C
   level table of the version;  trig : trigger predicates of the known findings that hold for this input;
-  rel : the model's tree is a relaxed derivation whose yield is the input (what `pratt_derives` proves).
+  rel : the model's tree is a relaxed derivation whose yield is the input (what `pratt_derives` proves), the
+        reference parser's tree is an EBNF derivation with that yield, and if it passes the table's guards the
+        model returns it (what `pratt_complete` proves) — run-time cross-checks, 0 = something is inconsistent.
 trees:  k.n | _ | (G<sym> e) | (P<sym> x) | (B<sym> l r) | (T<sym> l n) | (X<sym> l e)
 -/
 import EPV.Proto
 import EPV.Gen.C04Tables
 import EPV.Lemmas.PrattTables
+import EPV.Lemmas.PrattComplete
 open EPV.Proto EPV.Syn EPV.Pratt EPV.Gen.C04
 
 def parseTok (s : String) : Option Tok :=
@@ -69,7 +72,7 @@ def answer (line : String) : String :=
         let ms := match m with | .ok t => showTree V.rows t | .error e => showErr e
         let ss := match s with | some t => showTree V.rows t | none => "ERR"
         let trig : List String :=
-          (if trigF04b V.rows s toks then ["F04b"] else []) ++
+          (if trigF04b V.rows V.impl V.ep s toks then ["F04b"] else []) ++
           (match s with
            | some t =>
              (if v == 10 && trigF04a V.rows t then ["F04a"] else []) ++
@@ -78,6 +81,13 @@ def answer (line : String) : String :=
         let rel := match m with
           | .ok t => decide (t.yield = toks) && derivableR (gramOf V.impl V.ep (syms V.rows)) 0 t
           | .error _ => true
-        s!"model={ms} spec={ss} trig={if trig.isEmpty then "-" else ",".intercalate trig} rel={if rel then 1 else 0}"
+        -- run-time cross-checks of the reference parser against the proved statements
+        let chk := match s with
+          | some t =>
+            decide (t.yield = toks) && derivable (gramOf V.w3c V.ep (syms V.rows)) 0 t &&
+              (!(derivable (gramOf V.impl V.ep (syms V.rows)) 0 t && guardsPass (tableOf V.rows) t) ||
+                (match m with | .ok t' => t' == t | .error _ => false))
+          | none => true
+        s!"model={ms} spec={ss} trig={if trig.isEmpty then "-" else ",".intercalate trig} rel={if rel && chk then 1 else 0}"
 
 def main : IO Unit := mainLoop answer
